@@ -204,3 +204,60 @@ def doc_text(doc: dict, flow: bool = False) -> str:
         if k not in ("Modules", "Nets"):
             out.append(f"{k}: {_val(v, True)}")
     return "\n".join(out) + "\n"
+
+
+# ---------------------------------------------------------------------------------------------
+# netlists compatible with a generated die (C03 / C10 / C19)
+# ---------------------------------------------------------------------------------------------
+def gen_compatible(rng, die: dict, max_modules: int = 8, kinds=("soft", "soft", "softrect", "hard"), terminals: bool = False,
+                   inside_only: bool = False) -> dict:
+    """die: dict from gen.dies.gen_die (uses its lattice xs/ys).  Fixed modules are taken from die['fixed']."""
+    xs, ys = [F(x) for x in die["xs"]], [F(y) for y in die["ys"]]
+    nx, ny = len(xs) - 1, len(ys) - 1
+    stepx, stepy = (xs[-1] - xs[0]) / nx, (ys[-1] - ys[0]) / ny
+    # extended lattice: two cells beyond the die on each side that exists (coordinates must stay >= 0)
+    ext = 0 if inside_only else 2
+    exs = xs + [xs[-1] + stepx * k for k in range(1, ext + 1)]
+    eys = ys + [ys[-1] + stepy * k for k in range(1, ext + 1)]
+    mods: dict = {}
+    for name, rects in (die.get("fixed") or {}).items():
+        mods[name] = {"fixed": True, "rectangles": [list(r) for r in rects]}
+    n = rng.randint(1, max_modules)
+    for i in range(n):
+        kind = rng.choice(list(kinds))
+        name = f"{'S' if kind.startswith('soft') else 'H'}{i}"
+        if kind == "soft":
+            side = rng.choice([F(1, 2), F(1), F(3, 2), F(2), F(3), F(7, 10), F(113, 100)]) * min(stepx, stepy)
+            area = geo.fl(side * side)
+            where = rng.random()
+            if where < 0.6 or inside_only:
+                cx, cy = rng.choice(xs) if rng.random() < 0.5 else (rng.choice(xs[:-1]) + stepx / 2), rng.choice(ys[:-1]) + stepy / rng.choice([1, 2, 4])
+                cx, cy = min(cx, xs[-1]), min(cy, ys[-1])
+            elif where < 0.8:   # on the border
+                cx, cy = rng.choice([xs[0], xs[-1]]), rng.choice(ys)
+            else:               # outside: sticks out or misses the die completely
+                cx, cy = xs[-1] + stepx * rng.choice([F(1, 4), 1, 3]), rng.choice(ys)
+            mods[name] = {"area": area, "center": [geo.fl(cx), geo.fl(cy)]}
+        else:
+            k = rng.randint(1, 3)
+            idx = geo.place_index_rects(rng, len(exs) - 1, len(eys) - 1, k, max_frac=0.5)
+            off = rng.choice([F(0), F(0), F(1, 2), F(1, 4)])     # off-lattice shift (stays >= 0)
+            rects = [geo.cwh(exs[a] + off * stepx, exs[b] + off * stepx, eys[c] + off * stepy, eys[d] + off * stepy) for (a, b, c, d) in idx]
+            if kind == "softrect":
+                mods[name] = {"area": geo.fl(sum((F(r[2]) * F(r[3]) for r in rects), F(0))), "rectangles": rects}
+            else:
+                mods[name] = {"hard": True, "rectangles": rects}
+                if rng.random() < 0.3 and len(rects) == 1:
+                    mods[name]["flip"] = True
+    if terminals and rng.random() < 0.5:
+        mods["T0"] = {"terminal": True, "center": [geo.fl(xs[0]), geo.fl(rng.choice(ys))]}
+    names = list(mods)
+    nets = []
+    if len(names) >= 2:
+        for _ in range(rng.randint(1, 6)):
+            e: list = rng.sample(names, rng.randint(2, min(4, len(names))))
+            w = rng.choice(WEIGHTS)
+            if w is not None:
+                e.append(w)
+            nets.append(e)
+    return {"Modules": mods, "Nets": nets}
